@@ -6,6 +6,7 @@ import (
 	"fmt"
 	"strings"
 	"sync"
+	"sync/atomic"
 	"testing"
 	"time"
 
@@ -247,7 +248,7 @@ func TestVP_C32_Manager(t *testing.T) {
 				mu.Lock()
 				unregisteredAt[c] = true
 				mu.Unlock()
-				var rwg sync.WaitGroup
+				var rpending atomic.Int32 // reconnects started from inside the callback (which may run on any goroutine)
 				if cur == c && rapid.Bool().Draw(t, "peerReconnectsDuringCallback") {
 					var r *vpC32Remote
 					for _, x := range rems {
@@ -259,16 +260,16 @@ func TestVP_C32_Manager(t *testing.T) {
 					both := rapid.Bool().Draw(t, "bothEndsDial")
 					mu.Lock()
 					reconnectInCallback = func() {
-						rwg.Add(1)
+						rpending.Add(1)
 						go func() {
-							defer rwg.Done()
+							defer rpending.Add(-1)
 							r.m.Disconnect(vpC32ID(0))
 							r.m.ConnectWithTransport(ctx, net.Transport(r.name), "M")
 						}()
 						if both {
-							rwg.Add(1)
+							rpending.Add(1)
 							go func() {
-								defer rwg.Done()
+								defer rpending.Add(-1)
 								if nc, _ := M.ConnectWithTransport(ctx, net.Transport("M"), r.name); nc != nil {
 									mu.Lock()
 									remember(nc)
@@ -294,7 +295,9 @@ func TestVP_C32_Manager(t *testing.T) {
 				} else {
 					M.handleDisconnect(c, errors.New("keepalive timeout"))
 				}
-				rwg.Wait()
+				for i := 0; i < 40000 && rpending.Load() != 0; i++ {
+					time.Sleep(100 * time.Microsecond)
+				}
 				mu.Lock()
 				reconnectInCallback = nil
 				mu.Unlock()
